@@ -77,6 +77,9 @@ def serve():
                         else:
                             with open(name, "w") as f:
                                 f.write(text)
+                    count = (req.get("repeat") or [])[k] if k < len(req.get("repeat") or []) else 1
+                    for _ in range(max(1, count) - 1):
+                        assemble(p)              # a long-lived process: the same program assembled many times before
                     res.append(assemble(p))
                 data = json.dumps({"results": res, "hashseed": os.environ.get("PYTHONHASHSEED")})
             except BaseException as e:  # noqa
